@@ -49,7 +49,10 @@ StSpec == StInit /\ [][StNext]_stvars /\ WF_stvars(App)
 
 \* A coder that answers "nothing happened, try again" (LZMA_TIMED_OUT -> LZMA_OK, allow_buf_error cleared) whenever it
 \* cannot progress never lets lzma_code() report LZMA_BUF_ERROR: MCStarveLazy.cfg must violate StarveLive.
-LazyRet(r) == IF r.ret = "OK" /\ r.uin = 0 /\ Len(r.out) = 0 THEN "TIMED_OUT" ELSE r.ret
+LazyRet(r, ain, aout) == IF r.ret = "OK" /\ r.uin = 0 /\ Len(r.out) = 0 THEN "TIMED_OUT" ELSE r.ret
+\* The same weakness restricted to calls where BOTH buffers are non-empty ("LZMA_BUF_ERROR is about the buffers"):
+\* MCStarveStopLazy.cfg must violate StallBounded on the inputs that end in an internal limit (FStop).
+LazyBothRet(r, ain, aout) == IF r.ret = "OK" /\ r.uin = 0 /\ Len(r.out) = 0 /\ ain > 0 /\ aout > 0 THEN "TIMED_OUT" ELSE r.ret
 
 DocumentedOnly == obs.kind = "call" => obs.ret \in Documented(Entry)
 StarveLive     == (starved # "no") ~> (told \/ done)
